@@ -509,6 +509,115 @@ def task_numeric(tier, seed):
                sample={"instances": N, "cyclic": ncyc})]
 
 
+def _depths(n, edges, root):
+    nb = {i: [] for i in range(n)}
+    for a, b in edges:
+        nb[a].append(b)
+        nb[b].append(a)
+    d, todo = {root: 0}, [root]
+    while todo:
+        x = todo.pop(0)
+        for y in nb[x]:
+            if y not in d:
+                d[y] = d[x] + 1
+                todo.append(y)
+    return d
+
+
+def task_numeric_partial(tier, seed):
+    """Tables that agree with the geometry NEAR the moved atom and disagree farther away, with a zero / tiny / perpendicular displacement
+    (the statement quantifies over tables that agree or disagree and over arbitrary displacements): every bond must still get its table length."""
+    rng = np.random.default_rng(4077 + seed)
+    tag = f"{PROP}/move_mol_atom/bounded.table-agrees-near-the-moved-atom-only,zero-or-tiny-displacement"
+    N = 120 if tier == "quick" else 1200
+    first, nbad = None, 0
+    for t in range(N):
+        n = int(rng.integers(4, 25))
+        edges = _rand_tree(rng, n)
+        pos = rng.normal(size=(n, 3)) * 2
+        root = int(rng.integers(0, n))
+        dep = _depths(n, edges, root)
+        cut = int(rng.integers(1, 3))
+        lengths = {}
+        for e in edges:
+            far = max(dep[e[0]], dep[e[1]]) > cut
+            geo = float(np.linalg.norm(pos[e[0]] - pos[e[1]]))
+            lengths[e] = geo * float(rng.uniform(0.8, 1.25)) if far else geo
+        kind = t % 3
+        if kind == 0:
+            displ = [0.0, 0.0, 0.0]
+        elif kind == 1:
+            displ = (rng.normal(size=3) * 1e-15).tolist()
+        else:
+            nbr = [b if a == root else a for a, b in edges if root in (a, b)][0]
+            u = pos[nbr] - pos[root]
+            w = np.cross(u, rng.normal(size=3))
+            displ = (w / np.linalg.norm(w) * 1e-9).tolist()
+        bad = numeric_move(n, edges, root, pos, displ, lengths, "asc" if t % 2 else "desc")
+        if bad:
+            nbad += 1
+            first = first or ({"fn": "move_mol_atom", "n": n, "edges": [list(e) for e in edges], "atom": root, "order": "asc" if t % 2 else "desc",
+                               "pos": pos.tolist(), "displ": displ, "lengths": {f"{i}_{j}": l for (i, j), l in lengths.items()}, "signature": "partial-table"}, bad)
+    if first:
+        return [ob(tag, "refuted", kind="bounded", engine="smallscope", backend="numeric-contract", evaluations=N,
+                   reason=f"{nbad}/{N} violate; first: " + "; ".join(first[1][:3]), cex=first[0])]
+    return [ob(tag, "discharged", kind="bounded", engine="smallscope", backend="numeric-contract", evaluations=N, sample={"instances": N})]
+
+
+def numeric_move_twice(n, edges, root, pos, displ, lengths1, lengths2):
+    """two consecutive calls with THE SAME table object whose recorded lengths were edited in place in between: the second result
+    must obey the table as it is at the second call"""
+    T = _T()
+    pos = np.array(pos, dtype=float)
+    bonds = _bond_table(n, [tuple(e) for e in edges], "asc", sym=False, lengths=lengths1)
+    with np.errstate(all="ignore"), step_budget(100 * n + 100):
+        T.move_mol_atom(pos, bonds, root, np.array(displ, dtype=float))
+        for i in list(bonds):                      # edit in place: same dict, same lists, new lengths
+            for k_, (j, _old) in enumerate(list(bonds[i])):
+                key = (min(i, j), max(i, j))
+                bonds[i][k_] = (j, lengths2[key])
+        out = T.move_mol_atom(pos, bonds, root, np.array(displ, dtype=float))
+    bad = []
+    if not np.all(np.isfinite(out)):
+        return ["non-finite output"]
+    for (i, j) in edges:
+        L = lengths2[(i, j)]
+        dist = float(np.linalg.norm(out[i] - out[j]))
+        if abs(dist - abs(L)) > 1e-9 * max(1.0, abs(L)):
+            bad.append(f"second call with the edited table: bond {i}-{j} has length {dist!r}, the table now says {L!r}")
+    return bad
+
+
+def task_numeric_twice(tier, seed):
+    rng = np.random.default_rng(5077 + seed)
+    tag = f"{PROP}/move_mol_atom/bounded.same-table-object-edited-between-two-calls"
+    N = 60 if tier == "quick" else 600
+    first, nbad = None, 0
+    for t in range(N):
+        n = int(rng.integers(2, 20))
+        edges = _rand_tree(rng, n)
+        pos = rng.normal(size=(n, 3)) * 2
+        root = int(rng.integers(0, n))
+        l1 = {e: float(np.linalg.norm(pos[e[0]] - pos[e[1]])) for e in edges}
+        l2 = {e: float(rng.uniform(0.5, 2.0)) for e in edges}
+        displ = (rng.normal(size=3) * 0.3).tolist()
+        try:
+            bad = numeric_move_twice(n, edges, root, pos, displ, l1, l2)
+        except StepBudgetExceeded as e:
+            bad = [f"move_mol_atom does not terminate ({e})"]
+        except Exception as e:      # noqa
+            bad = [f"second call raises {type(e).__name__}: {e}"]
+        if bad:
+            nbad += 1
+            first = first or ({"fn": "move_twice", "n": n, "edges": [list(e) for e in edges], "atom": root, "pos": pos.tolist(), "displ": displ,
+                               "lengths1": {f"{i}_{j}": l for (i, j), l in l1.items()}, "lengths2": {f"{i}_{j}": l for (i, j), l in l2.items()},
+                               "signature": "table-edited-in-place"}, bad)
+    if first:
+        return [ob(tag, "refuted", kind="bounded", engine="smallscope", backend="numeric-contract", evaluations=N,
+                   reason=f"{nbad}/{N} violate; first: " + "; ".join(first[1][:3]), cex=first[0])]
+    return [ob(tag, "discharged", kind="bounded", engine="smallscope", backend="numeric-contract", evaluations=N, sample={"instances": N})]
+
+
 def numeric_displ(nb, rng):
     T = _T()
     n = nb + 1
@@ -605,6 +714,8 @@ def tasks(prop, tier, seed):
     t = [(f"move_mol_atom/structures{p}", _task_part, (tier, seed, p, nparts), 1500.0) for p in range(nparts)]
     t.append(("find_atom_random_displ/symrun", task_displ, (seed,), 600.0))
     t.append(("move_mol_atom/numeric", task_numeric, (tier, seed), 900.0))
+    t.append(("move_mol_atom/numeric-partial-table", task_numeric_partial, (tier, seed), 900.0))
+    t.append(("move_mol_atom/numeric-table-edited-between-calls", task_numeric_twice, (tier, seed), 900.0))
     t.append(("find_atom_random_displ/numeric", task_numeric_displ, (tier, seed), 600.0))
     return t
 
@@ -621,6 +732,13 @@ def replay(prop, cex):
             if bad:
                 return {"reproduced": True, "observed": bad[:3], "inputs": cex}
         return {"reproduced": False, "inputs": cex}
+    if cex.get("fn") == "move_twice":
+        k2t = lambda d: {tuple(int(x) for x in k.split("_")): v for k, v in d.items()}
+        try:
+            bad = numeric_move_twice(cex["n"], [tuple(e) for e in cex["edges"]], cex["atom"], cex["pos"], cex["displ"], k2t(cex["lengths1"]), k2t(cex["lengths2"]))
+        except Exception as e:
+            bad = [f"raises {type(e).__name__}: {e}"]
+        return {"reproduced": bool(bad), "observed": bad[:4], "expected": "every bond has the length the table records at the second call", "inputs": cex}
     n, edges, root = cex["n"], [tuple(e) for e in cex["edges"]], cex["atom"]
     rng = np.random.default_rng(0)
     trials = []
